@@ -29,7 +29,8 @@ EXTRA = {'C01-1': ['C03'], 'C19-3': ['C17'], 'C02-2': ['C03'],
          'C01-w8-1': ['C02'], 'C03-w8-2': ['C06'], 'C10-w8-2': ['C11'],
          'C04-w8-1': ['C13'], 'C10-w8-1': ['C13'],
          'C04-w9-2': ['C08'], 'C05-w9-2': ['C17'], 'C12-w9-1': ['C01'],
-         'C09-w9-1': ['C08'], 'C04-w9-1': ['C13']}
+         'C09-w9-1': ['C08'], 'C04-w9-1': ['C13'],
+         'C05-w10-1': ['C06'], 'C12-w10-1': ['C13'], 'C18-w10-2': ['C12']}
 jobs = int(sys.argv[1]) if len(sys.argv) > 1 else 3
 only = sys.argv[2] if len(sys.argv) > 2 else ''
 
